@@ -29,8 +29,10 @@ ASSUMPTIONS = [
     "and mask features before calling the same lookup engine: engine covered here, script logic by C02/C17); no "
     "required feature; requested tags exclude rvrn, fina, vert, vrt2 (special-cased by gsub::apply)",
     "context nesting depth <= 3 (allsorts' SUBST_RECURSION_LIMIT; OpenType sets no limit), no reverse-chaining "
-    "lookup nested in a context, lookup flags without reserved bits and without markAttachmentType together with "
-    "useMarkFilteringSet, substitutions stay inside the font's glyph range",
+    "lookup nested in a context, lookup flags without reserved bits, substitutions stay inside the font's glyph range",
+    "a lookup flag with markAttachmentType AND useMarkFilteringSet (OpenType states the filters separately and is "
+    "silent on the combination) is accepted under three readings, Dev_MarkFilterPrecedence: both filters, the set "
+    "alone (HarfBuzz), the attachment type alone (allsorts); ignoreMarks supersedes both",
     "where OpenType is silent one reading is fixed and documented in Gsub.tla (sequence index counted on the "
     "current run with the parent lookup's flag; cursor resumes after the matched input as changed by nested "
     "lookups; nested alternate lookup takes alternate 0); Dev_NestedSeqIdxFlag is accepted either way",
@@ -43,7 +45,14 @@ REQUIRED_TAGS = [
     "context-lookahead", "context-skipping", "context-length-change", "context-many-records", "nested-lig",
     "nested-multi-many", "nested-multi-empty", "nested-context", "nested-index-beyond-run", "nested-index-past-run-end",
     "context-shrunk-to-nothing", "context-shrunk-below-zero", "rev",
-    "cursor-glyph-skipped",
+    "cursor-glyph-skipped", "context-ignore-rule", "context-later-subtable", "rev-later-subtable",
+]
+# program families the generator must produce (counted on TLC's PROG / CASE lines)
+REQUIRED_FAMILIES = [
+    "single", "multi", "alternate", "ligature", "context", "chain", "reverse", "ordering",
+    "combo-single", "combo-ligature", "combo-chain", "combo-reverse", "reverse-two-subtables", "context-subtables",
+    "chain-subtables", "ligature-successive", "pipeline-multi-chain-ligature", "pipeline-multi-reverse-ligature",
+    "alternate-shared-lookups", "ordering-variations",
 ]
 REQUIRED_STATS = [
     "cases_changing_the_run", "cases_with_several_conformant_outcomes", "cases_where_a_known_wrong_reading_differs",
@@ -98,6 +107,7 @@ def run(ctx):
     cfg = "MC_Gsub_quick.cfg" if ctx.quick else "MC_Gsub_thorough.cfg"
     prog_path, cases_path = ctx.path("progs.ndjson"), ctx.path("cases.ndjson")
     n_cases, n_prog = [0], [0]
+    gen_stats = {"cases_with_three_or_more_conformant_outcomes": 0}
     samples, planted = [], []
     with open(prog_path, "w") as fp, open(cases_path, "w") as fc:
         def sink(tag, payload):
@@ -107,11 +117,13 @@ def run(ctx):
             elif tag == "CASE":
                 fc.write(payload + "\n")
                 n_cases[0] += 1
+                if '"alts":[]' not in payload and len(json.loads(payload)["alts"]) >= 2:
+                    gen_stats["cases_with_three_or_more_conformant_outcomes"] += 1
                 if len(samples) < 1 and '"lig-skipping"' in payload and len(payload) < 2500:
                     samples.append(payload)
                 if not planted and '"lig"' in payload and '"alts":[]' in payload and '"bugs":[]' in payload:
                     planted.append(payload)
-        mc = vlib.run_tlc(ctx, "MC_Gsub", cfg, "mc", workers=4, timeout=600 if ctx.quick else 3000, sink=sink,
+        mc = vlib.run_tlc(ctx, "MC_Gsub", cfg, "mc", workers=4, timeout=1800 if ctx.quick else 4500, sink=sink,
                           xmx="6g" if ctx.quick else "8g")
     ctx.note("MC_Gsub: %d states generated, %d distinct, depth %d, %d programs, %d cases (%.1fs)" %
              (mc.generated, mc.distinct, mc.depth, n_prog[0], n_cases[0], mc.wall))
@@ -138,6 +150,14 @@ def run(ctx):
     programs = {}
     for t in vlib.read_ndjson(prog_path):
         programs[t["p"]] = t
+    families = {}
+    for t in programs.values():
+        families[t["name"]] = families.get(t["name"], 0) + 1
+    missing = [f for f in REQUIRED_FAMILIES if f not in families]
+    if missing:
+        raise vlib.ToolError("vacuity: the generator produced no program of the families %s" % missing)
+    if gen_stats["cases_with_three_or_more_conformant_outcomes"] == 0:
+        raise vlib.ToolError("vacuity: no generated case tells the three readings of Dev_MarkFilterPrecedence apart")
 
     # spec -> impl
     mism_path = ctx.path("mismatches.ndjson")
@@ -294,6 +314,8 @@ def run(ctx):
         "samples": [json.loads(s) for s in samples[:1]] +
                    [{k: e[k] for k in ("i", "case", "ev", "a", "o")} for e in events if e["ev"] == "Apply" and len(e["a"]["in"]) > 2][:1],
         "generated_programs": n_prog[0],
+        "generated_program_families": families,
+        "generated_reading_stats": gen_stats,
         "generated_cases": n_cases[0],
         "generated_cases_with_mismatch": n_mism_cases,
         "table_bytes_encoded": rep.get("table_bytes_encoded", 0),
